@@ -131,6 +131,10 @@ class Env:
         iv = self.int_value(e, dead)
         if iv is not None:
             return iv != 0
+        # truthiness of a container whose length the valuation fixes: `not edges`  <=>  len(edges) == 0
+        lt = f"len({t})"
+        if lt in self.ints and lt not in dead:
+            return self.ints[lt] != 0
         return None
 
     def _cmp(self, l, op, r, dead) -> Optional[bool]:
